@@ -664,3 +664,244 @@ class FirstRound(PropOracle):
 
 
 ORACLES.update({c.__name__: c for c in (C07, C07Dry, FirstRound)})
+
+
+STATE_RANK = {"not_submitted": 0, "submitted": 1, "done": 2}
+
+
+class C09(PropOracle):
+    """Persisted status consistent (whenever the cluster lock is free) and monotone."""
+
+    prop = "C09"
+
+    def __init__(self):
+        self.prev = None
+
+    def _read_version(self, path):
+        try:
+            with open(path) as f:
+                return int(f.read().strip())
+        except (OSError, ValueError):
+            return None
+
+    def on_transition(self, w, vp, d):
+        wr = w.written
+        if not (wr & {"cluster_config.json", "job_status.json", "config_version.txt", "job_status_version.txt",
+                      "processed_results.csv", "cluster_config.json.lock"}):
+            return
+        self.observe(w, vp)
+
+    def observe(self, w, vp):
+        r = w.rootp
+        if os.path.exists(r + "cluster_config.json.lock"):
+            return  # status cannot be read now
+        c = read_json(r + "cluster_config.json")
+        s = read_json(r + "job_status.json")
+        if c is None or s is None:
+            if self.prev is not None:
+                self.v(w, "status files unreadable while the cluster lock is free "
+                          f"(cluster_config={'ok' if c else 'unreadable'}, job_status={'ok' if s else 'unreadable'})",
+                       "unreadable")
+            return
+        who = vp.name if vp is not None else "?"
+        cv, sv = self._read_version(r + "config_version.txt"), self._read_version(r + "job_status_version.txt")
+        n = c["num_jobs"]
+        done = [j["name"] for j in s["jobs"] if j["state"] == "done"]
+        sub = [j["name"] for j in s["jobs"] if j["state"] == "submitted"]
+        if not (0 <= c["completed_jobs"] <= c["submitted_jobs"] <= n):
+            self.v(w, f"after {who}: completed={c['completed_jobs']} submitted={c['submitted_jobs']} total={n}", "counter-order")
+        if c["completed_jobs"] != len(done):
+            self.v(w, f"after {who}: completed_jobs={c['completed_jobs']} but {len(done)} jobs are done {done}", "completed-count")
+        if c["submitted_jobs"] != len(done) + len(sub):
+            self.v(w, f"after {who}: submitted_jobs={c['submitted_jobs']} but {len(sub)} submitted + {len(done)} done", "submitted-count")
+        if len(s["jobs"]) != n:
+            self.v(w, f"num_jobs={n} but job_status lists {len(s['jobs'])}", "num-jobs")
+        rows = read_rows(r + "processed_results.csv")
+        have = {x.get("name") for x in rows or []}
+        nores = [j for j in done if j not in have]
+        if nores and not os.path.exists(r + "processed_results.csv.lock"):
+            self.v(w, f"after {who}: jobs {nores} are done without a recorded result", "done-without-result")
+        if cv != c["version"]:
+            self.v(w, f"config_version.txt={cv} but cluster_config.json has version {c['version']}", "config-version-file")
+        if sv != s["version"]:
+            self.v(w, f"job_status_version.txt={sv} but job_status.json has version {s['version']}", "status-version-file")
+        for j in s["jobs"]:
+            if j["state"] != "not_submitted" and j["blocked_by"]:
+                self.v(w, f"job {j['name']} is {j['state']} with remaining blockers {j['blocked_by']}", "blockers-after-submit")
+        p = self.prev
+        cur = dict(c=c, s=s)
+        if p is not None:
+            pc, ps = p["c"], p["s"]
+            resub = pc.get("is_complete") and not c.get("is_complete")
+            strip = lambda d_: {k: v for k, v in d_.items() if k != "version"}
+            if c["version"] < pc["version"] or s["version"] < ps["version"]:
+                self.v(w, f"version decreased: config {pc['version']}->{c['version']} status {ps['version']}->{s['version']}", "version-decrease")
+            if strip(c) != strip(pc) and c["version"] <= pc["version"]:
+                self.v(w, f"cluster config changed without a version increase ({pc['version']}->{c['version']})", "config-change-no-version")
+            if strip(s) != strip(ps) and s["version"] <= ps["version"]:
+                self.v(w, f"job status changed without a version increase ({ps['version']}->{s['version']})", "status-change-no-version")
+            if not resub:
+                if c["submitted_jobs"] < pc["submitted_jobs"] or c["completed_jobs"] < pc["completed_jobs"]:
+                    self.v(w, f"counters decreased: submitted {pc['submitted_jobs']}->{c['submitted_jobs']} completed {pc['completed_jobs']}->{c['completed_jobs']}", "counter-decrease")
+                if pc.get("is_complete") and not c.get("is_complete"):
+                    self.v(w, "a complete submission became incomplete", "complete-reverted")
+                pj = {j["name"]: j for j in ps["jobs"]}
+                for j in s["jobs"]:
+                    o = pj.get(j["name"])
+                    if o is None:
+                        continue
+                    if STATE_RANK[j["state"]] < STATE_RANK[o["state"]]:
+                        self.v(w, f"job {j['name']} went {o['state']} -> {j['state']}", "state-regress")
+                    if not set(j["blocked_by"]) <= set(o["blocked_by"]):
+                        self.v(w, f"remaining blockers of {j['name']} grew: {o['blocked_by']} -> {j['blocked_by']}", "blockers-grew")
+        self.prev = cur
+
+
+class C14(PropOracle):
+    """Cancel is final."""
+
+    prop = "C14"
+
+    def __init__(self):
+        self.ids_at_cancel = None
+        self.rows_at_cancel = None
+
+    def digest(self):
+        return repr((self.ids_at_cancel, sorted(self.rows_at_cancel or ())))
+
+    def on_canceled(self, w, vp, d):
+        s = read_json(w.rootp + "job_status.json") or {}
+        self.ids_at_cancel = tuple(s.get("hpc_job_ids", []))
+        self.rows_at_cancel = {k: tuple(v) for k, v in disk_rows(w).items()}
+        asked = {x[1] for x in w.obs.scancel_log}
+        miss = [i for i in self.ids_at_cancel if i not in asked]
+        if miss:
+            self.v(w, f"submission marked canceled but active batches {miss} were not asked to be canceled "
+                      f"(scancel issued for {sorted(asked)})", "active-batch-not-cancelled")
+
+    def on_sbatch(self, w, vp, d):
+        if w.obs.cancel_seen:
+            self.v(w, f"{vp.name} handed batch {d.get('name')} {d['jobs']} to the HPC after the submission was canceled",
+                   "sbatch-after-cancel")
+
+    def on_end(self, w, vp, d):
+        o = w.obs
+        if not o.cancel_seen or w.data.get("faulty"):
+            return
+        c = o.cluster or {}
+        if not c.get("is_complete"):
+            if w.scen.get("expect_complete_after_cancel", True):
+                self.v(w, "canceled submission did not reach completion", "cancel-not-complete")
+            return
+        res = read_json(w.rootp + "results.json")
+        if res is None:
+            self.v(w, "canceled+complete submission without results.json", "no-results")
+            return
+        got = {r["name"]: (str(r["return_code"]), r["status"]) for r in res.get("results", [])}
+        for n, rr in (self.rows_at_cancel or {}).items():
+            if n not in got:
+                self.v(w, f"result of {n} recorded before the cancel is not in the final results", "result-lost")
+            elif (rr[0][0], rr[0][1]) != got[n]:
+                self.v(w, f"result of {n} changed: {rr[0][:2]} -> {got[n]}", "result-changed")
+        rows = disk_rows(w)
+        names = {j["name"] for j in w.scen["jobs"]}
+        for n in sorted(names):
+            if n not in rows and n not in res.get("missing_jobs", []):
+                self.v(w, f"job {n} never produced a result but is not reported missing", "not-missing")
+            if n in res.get("missing_jobs", []) and n in got:
+                self.v(w, f"job {n} reported both missing and with a result", "missing-and-result")
+
+
+class C16(PropOracle):
+    """Setup/teardown/node hooks exactly once, at the right time."""
+
+    prop = "C16"
+
+    def on_hook(self, w, vp, d):
+        h = w.obs.hooks[-1]
+        kind = h["argv"][1] if len(h["argv"]) > 1 and h["argv"][0] == "hook" else None
+        if kind is None:
+            return
+        env = h["env"]
+        if env.get("JADE_RUNTIME_OUTPUT") != w.root:
+            self.v(w, f"{kind} hook run with JADE_RUNTIME_OUTPUT={env.get('JADE_RUNTIME_OUTPUT')!r}", f"{kind}-env")
+        same = [x for x in w.obs.hooks if x["argv"][:2] == h["argv"][:2]]
+        if kind == "setup":
+            if len(same) > 1:
+                self.v(w, f"setup command run {len(same)} times", "setup-twice")
+            if h["n_sbatch"] or h["n_launch"]:
+                self.v(w, f"setup command run after {h['n_sbatch']} sbatch / {h['n_launch']} launches", "setup-late")
+            if h["host"] != "login1":
+                self.v(w, f"setup command run on {h['host']}, not on the submitting host", "setup-host")
+        elif kind == "teardown":
+            n_done = sum(1 for x in same if x["complete"] is False)
+            if h["complete"]:
+                self.v(w, "teardown command run after the completion flag was set", "teardown-after-flag")
+            if len(same) > w.obs.completions + 1:
+                self.v(w, f"teardown command run {len(same)} times for {w.obs.completions + 1} completion(s)", "teardown-twice")
+            if not w.data.get("faulty"):
+                names = {j["name"] for j in w.scen["jobs"]}
+                if not names <= h["rows"]:
+                    self.v(w, f"teardown command run while jobs {sorted(names - h['rows'])} have no outcome", "teardown-early")
+        elif kind in ("node_setup", "node_teardown"):
+            mine = [x for x in same if x["vp"] == h["vp"]]
+            if len(mine) > 1:
+                self.v(w, f"{kind} command run {len(mine)} times on {h['vp']}", f"{kind}-twice")
+            if h["kind"] == "node" and "JADE_SUBMISSION_GROUP" not in env:
+                self.v(w, f"{kind} command run without JADE_SUBMISSION_GROUP", f"{kind}-env")
+            elif h["kind"] == "node":
+                b = w.sim.batches.get(vp.batch_id)
+                by = {j["name"]: j for j in w.scen["jobs"]}
+                want = {by[j]["group"] for j in (b.jobs if b else []) if j in by}
+                if want and env.get("JADE_SUBMISSION_GROUP") not in want:
+                    self.v(w, f"{kind} command of batch {b.jobs} run with JADE_SUBMISSION_GROUP={env.get('JADE_SUBMISSION_GROUP')}", f"{kind}-group")
+            launched_here = [l for l in w.obs.launch_log if l["vp"] == h["vp"]]
+            if kind == "node_setup" and launched_here:
+                self.v(w, f"node setup command run on {h['vp']} after {len(launched_here)} job(s) of the batch started", "node-setup-late")
+            if kind == "node_teardown":
+                if h["live"]:
+                    self.v(w, f"node teardown command run on {h['vp']} while jobs {h['live']} are running", "node-teardown-early")
+                b = w.sim.batches.get(vp.batch_id) if vp.kind == "node" else None
+                if b is not None and not w.data.get("faulty"):
+                    notyet = [j for j in b.jobs if j not in h["rows"]]
+                    if notyet:
+                        self.v(w, f"node teardown command run on {h['vp']} before jobs {notyet} of the batch ended", "node-teardown-early")
+
+    def on_end(self, w, vp, d):
+        if w.data.get("faulty"):
+            return
+        o = w.obs
+        hooks = w.scen.get("hooks", {})
+        c = o.cluster or {}
+        cnt = lambda k: sum(1 for x in o.hooks if x["argv"][:2] == ["hook", k])
+        local = w.scen.get("mode") == "local"
+        if hooks.get("setup") and cnt("setup") != 1:
+            self.v(w, f"setup command run {cnt('setup')} times", "setup-count")
+        if c.get("is_complete") or local:
+            ncomp = max(o.completions, 1) if not local else 1
+            if hooks.get("teardown") and cnt("teardown") != ncomp:
+                self.v(w, f"teardown command run {cnt('teardown')} times for {ncomp} completion(s)", "teardown-count")
+        # per batch
+        for b in w.sim.batches.values():
+            for k in ("node_setup", "node_teardown"):
+                if hooks.get(k):
+                    n = sum(1 for x in o.hooks if x["argv"][:2] == ["hook", k] and x["vp"] == f"n{b.id}")
+                    if n != 1 and b.vp is not None and b.vp.status != "dead":
+                        self.v(w, f"{k} command run {n} times for batch {b.id} {b.jobs}", f"{k}-count")
+        if local:
+            for k in ("node_setup", "node_teardown"):
+                if hooks.get(k) and cnt(k) != 1:
+                    self.v(w, f"{k} command run {cnt(k)} times in local mode", f"{k}-count")
+        # configuring hooks never prevents results from being recorded / the node's try-submit
+        rows = disk_rows(w)
+        names = [j["name"] for j in w.scen["jobs"]]
+        miss = [n for n in names if n not in rows]
+        if miss:
+            self.v(w, f"jobs {miss} have no recorded result with hooks {sorted(k for k, v in hooks.items() if v)} configured", "hooks-lose-results")
+        if not local and not c.get("is_complete"):
+            self.v(w, f"submission with hooks {sorted(k for k, v in hooks.items() if v)} did not complete", "hooks-no-completion")
+        for (name, exc, tb) in o.crashes:
+            self.v(w, f"process {name} crashed with hooks configured: {exc}", "hooks-crash")
+
+
+ORACLES.update({c.__name__: c for c in (C09, C14, C16)})
